@@ -255,6 +255,121 @@ def streaming_case(out: Outcome, rng, protocol: int) -> None:
         out.case({"detector": name, "protocol": protocol, "save_point": k})
 
 
+# --- classes and functions written by a USER at the library's extension points (module level, so that pickle can name them): a streaming callback, a batch callback,
+# a kernel function, a BOCD model
+from frouros.callbacks.streaming.base import BaseCallbackStreaming  # noqa: E402
+from frouros.callbacks.batch.base import BaseCallbackBatch  # noqa: E402
+from frouros.detectors.concept_drift.streaming.change_detection.bocd import BaseBOCDModel  # noqa: E402
+
+
+class UserDriftCounter(BaseCallbackStreaming):
+    def __init__(self, name="counter"):
+        super().__init__(name=name)
+        self.drifts = 0
+        self.updates = 0
+
+    def on_update_end(self, value):
+        self.updates += 1
+        self.drifts += int(bool(self.detector.drift))
+        self.logs = {"drifts": self.drifts, "updates": self.updates}
+
+    def reset(self):
+        self.drifts = 0
+
+
+class UserCompareCounter(BaseCallbackBatch):
+    def __init__(self, name="compares"):
+        super().__init__(name=name)
+        self.n = 0
+
+    def on_compare_end(self, result, X_ref, X_test):  # noqa: N803
+        self.n += 1
+        self.logs = {"n": self.n}
+
+    def reset(self):
+        self.n = 0
+
+
+def user_kernel(X, Y):  # noqa: N803
+    d = ((X[:, None, :] - Y[None, :, :]) ** 2).sum(-1)
+    return 1.0 / (1.0 + d)
+
+
+class UserGaussianModel(BaseBOCDModel):
+    def __init__(self, prior_mean=0.0, prior_var=1.0, data_var=1.0):
+        super().__init__()
+        self.mu = np.array([prior_mean])
+        self.prec = np.array([1 / prior_var])
+        self.dv = data_var
+
+    def log_pred_prob(self, idx, value):
+        from scipy.stats import norm
+        return norm(self.mu[:idx], np.sqrt(1 / self.prec[:idx] + self.dv)).logpdf(value)
+
+    def update(self, value, **kwargs):
+        new_prec = self.prec + 1 / self.dv
+        new_mu = (self.mu * self.prec + value / self.dv) / new_prec
+        self.mu = np.append(self.mu[:1], new_mu)
+        self.prec = np.append(self.prec[:1], new_prec)
+
+    @property
+    def mean_params(self):
+        return self.mu
+
+    @property
+    def var_params(self):
+        return 1 / self.prec + self.dv
+
+
+def user_defined_cases(out: Outcome, rng) -> None:
+    """"for every detector and callback": the population `save()` itself defines is "an instance that inherits from BaseDetector or BaseCallback" - subclasses written by
+    a user, and detectors that carry a user's callback, kernel or model, are saved AND loaded, and continue like the original"""
+    import frouros.detectors.concept_drift as cd
+    cases = []
+    try:
+        d1 = cd.DDM(callbacks=[UserDriftCounter()])
+        cases.append(("DDM with a user-defined streaming callback", d1, [int(rng.random() < 0.3) for _ in range(80)], "stream"))
+        d2 = cd.BOCD(config=cd.BOCDConfig(model=UserGaussianModel(), min_num_instances=5))
+        cases.append(("BOCD with a user-defined model class", d2, [rng.gauss(0, 1) for _ in range(20)] + [rng.gauss(4, 1) for _ in range(15)], "stream"))
+        d3 = MMD(kernel=user_kernel, callbacks=[UserCompareCounter()])
+        cases.append(("MMD with a user-defined kernel function and batch callback", d3, None, "batch"))
+        cases.append(("a user-defined streaming callback on its own", UserDriftCounter(name="c2"), None, "callback"))
+    except Exception as e:  # noqa: BLE001
+        out.notes.append(f"user-defined extension classes could not be constructed: {type(e).__name__}: {e}")
+        return
+    for what, obj, xs, kind in cases:
+        rep = {"object": what, "kind": "user-defined classes"}
+        try:
+            if kind == "stream":
+                k = len(xs) // 2
+                for v in xs[:k]:
+                    obj.update(value=v)
+                loaded = roundtrip(obj, pickle.HIGHEST_PROTOCOL if rng.random() < 0.5 else 2)
+                a = [(bool(obj.update(value=v) is None or obj.drift), canon_logs(obj)) for v in xs[k:]]
+                b = [(bool(loaded.update(value=v) is None or loaded.drift), canon_logs(loaded)) for v in xs[k:]]
+                if type(loaded) is not type(obj) or a != b:
+                    out.violation(f"{what}: after save/load the continuation differs from the original's", rep)
+            elif kind == "batch":
+                ref, t1 = np.array([[rng.gauss(0, 1)] for _ in range(8)]), np.array([[rng.gauss(0.5, 1)] for _ in range(7)])
+                obj.fit(X=ref)
+                obj.compare(X=t1)
+                loaded = roundtrip(obj, pickle.HIGHEST_PROTOCOL)
+                ra, rb = obj.compare(X=t1), loaded.compare(X=t1)
+                if res_key(ra[0]) != res_key(rb[0]) or dets.canon_public(ra[1]) != dets.canon_public(rb[1]):
+                    out.violation(f"{what}: after save/load the next compare differs from the original's", rep)
+            else:
+                loaded = roundtrip(obj, 0)
+                if type(loaded) is not type(obj) or loaded.name != obj.name:
+                    out.violation(f"{what}: loaded object differs", rep)
+        except Exception as e:  # noqa: BLE001
+            out.violation(f"{what}: save/load raised {type(e).__name__}: {e}", rep)
+        out.case({"user_defined": what})
+
+
+def canon_logs(det):
+    return tuple(dets.canon_public(getattr(c, "logs", None)) for c in (det.callbacks or []))
+
+
 def rejections(out: Outcome) -> None:
     from frouros.detectors.concept_drift import DDM
     for obj, what in ((object(), "plain object"), ({"a": 1}, "dict"), ("DDM", "str"), (DDM, "a detector class (not an instance)")):
@@ -318,6 +433,7 @@ def run(out: Outcome) -> None:
             if type(l) is not type(cb) or snap(l) != snap(cb):
                 out.violation(f"{type(cb).__name__}: loaded callback differs from the original", {"callback": type(cb).__name__, "protocol": proto})
             out.case({"callback": type(cb).__name__, "protocol": proto})
+    user_defined_cases(out, rng)
     rejections(out)
     out.traces_validated = out.evaluations
 
